@@ -1,5 +1,5 @@
 (* Executable entry points for the C02 correspondence shards: to_write of parsed messages, re-parse, second
-   write (files), and to_write of directly constructed messages (incl. the u16 length overflow panic). *)
+   write (files), and to_write of directly constructed messages (incl. the Err returned when header + payload exceed the 16 bit len field). *)
 From Coq Require Import List NArith Bool.
 From AdltV Require Import Base.Obs Base.Res Base.MachInt Dlt.Frame Dlt.Iter Dlt.Write Exec.C01.
 Import ListNotations.
